@@ -25,6 +25,24 @@ int openssl_process_rsa(json_t *jwk, jwk_item_t *item);
 int openssl_process_ec(json_t *jwk, jwk_item_t *item);
 
 static jwk_item_t item, before;
+
+/* C12: the provider that happens to be active while a key is loaded (both providers share these
+ * OpenSSL-based parsers) is a symbolic choice; the imported item must not depend on it */
+#ifdef PROP_C12
+static struct jwt_crypto_ops ops_openssl = { .name = "openssl", .provider = JWT_CRYPTO_OPS_OPENSSL };
+static struct jwt_crypto_ops ops_gnutls = { .name = "gnutls", .provider = JWT_CRYPTO_OPS_GNUTLS };
+#define ACTIVE_PROVIDER_SETUP() do { jwt_ops = nondet_bool() ? &ops_openssl : &ops_gnutls; } while (0)
+#define C12_POST() do {                                                                          \
+	if (!item.error)                                                                         \
+		PROP(item.provider == JWT_CRYPTO_OPS_OPENSSL && item.provider_data == vo_made_pkey && (item.pem != NULL || vo_oracle_failed), \
+		     "C12: a key loaded under either provider carries the OpenSSL key object, its OpenSSL tag and a PEM - usable under both"); \
+	REACH(!item.error && jwt_ops == &ops_gnutls, "key imported while GnuTLS is the active provider");  \
+	REACH(!item.error && jwt_ops == &ops_openssl, "key imported while OpenSSL is the active provider"); \
+} while (0)
+#else
+#define ACTIVE_PROVIDER_SETUP() ((void)0)
+#define C12_POST() ((void)0)
+#endif
 static vj_t *jwk;
 
 struct dec { int is_str; int ok; unsigned char b[VJ_SLEN]; unsigned n; unsigned bn_off, bn_len; };
@@ -106,6 +124,7 @@ int main(void)
 	const json_t *jalg;
 
 	vf_install_alloc();
+	ACTIVE_PROVIDER_SETUP();
 	jwk = VJ(vj_havoc_object(alpha, NALPHA, 0));
 	memset(&item, 0, sizeof(item));
 	item.kty = JWK_KEY_TYPE_RSA;
@@ -128,6 +147,7 @@ int main(void)
 	}
 	jalg = json_object_get(&jwk->j, "alg");
 	common_post(ret);
+	C12_POST();
 	ret = item.error ? -1 : 0;      /* from here on: the import verdict */
 #ifdef PROP_C07
 	if (!present("n") || !present("e") || !dn.ok || !de.ok || (npriv != 0 && npriv != 6) || (npriv == 6 && !allstr))
@@ -150,6 +170,9 @@ int main(void)
 				PROP(push_is(2 + k, priv_ossl[k], 1, dp[k].b + dp[k].bn_off, dp[k].bn_len),
 				     "C08: each private component = decoding of its member (d, p, q, dp, dq, qi)");
 	}
+	if (present("n") && present("e") && dn.ok && de.ok && (npriv == 0 || (npriv == 6 && allstr)) &&
+	    (!jalg || jalg->type == JSON_STRING) && !vo_oracle_failed && !vf_faulted)
+		PROP(ret == 0, "C08/C20: an RSA JWK whose members are all well-formed base64url integers (minimal or zero-padded) imports without error whenever OpenSSL accepts the material");
 	REACH(ret == 0 && npriv == 6 && dp[1].bn_off == 1, "private key with a zero-padded p");
 	REACH(ret == 0 && jalg && VJ(jalg)->s[0] == 'P', "PS* key imported");
 #endif
@@ -167,6 +190,7 @@ int main(void)
 	const json_t *jcrv;
 
 	vf_install_alloc();
+	ACTIVE_PROVIDER_SETUP();
 	jwk = VJ(vj_havoc_object(alpha, NALPHA, 0));
 	memset(&item, 0, sizeof(item));
 	item.kty = JWK_KEY_TYPE_EC;
@@ -179,6 +203,7 @@ int main(void)
 	ref_member("d", &dd);
 	jcrv = json_object_get(&jwk->j, "crv");
 	common_post(ret);
+	C12_POST();
 	ret = item.error ? -1 : 0;      /* from here on: the import verdict */
 #ifdef PROP_C07
 	if (!jcrv || jcrv->type != JSON_STRING || !dx.ok || !dy.ok || (present("d") && !dd.ok))
@@ -215,6 +240,9 @@ int main(void)
 		if (present("d"))
 			PROP(push_is(2, OSSL_PKEY_PARAM_PRIV_KEY, 1, dd.b + dd.bn_off, dd.bn_len), "C08: private scalar = decoding of d");
 	}
+	if (jcrv && jcrv->type == JSON_STRING && dx.ok && dy.ok && (!present("d") || dd.ok) && !vo_oracle_failed && !vf_faulted)
+		PROP(ret == 0, "C08/C20: an EC JWK whose x, y (and d) are well-formed base64url integers - leading zero octets included, as fixed-width encoding requires - imports without error whenever OpenSSL accepts the material");
+	REACH(ret == 0 && present("d") && dd.bn_off > 0, "private scalar with a leading zero octet imported");
 	REACH(ret == 0 && ref_streq(VJ(jcrv)->s, "P-384"), "P-384 mapped");
 	REACH(ret == 0 && dx.bn_off > 0, "x with a leading zero byte");
 #endif
@@ -232,6 +260,7 @@ int main(void)
 	const json_t *jcrv;
 
 	vf_install_alloc();
+	ACTIVE_PROVIDER_SETUP();
 	jwk = VJ(vj_havoc_object(alpha, NALPHA, 0));
 	memset(&item, 0, sizeof(item));
 	item.kty = JWK_KEY_TYPE_OKP;
@@ -243,6 +272,7 @@ int main(void)
 	ref_member("d", &dd);
 	jcrv = json_object_get(&jwk->j, "crv");
 	common_post(ret);
+	C12_POST();
 	ret = item.error ? -1 : 0;      /* from here on: the import verdict */
 #ifdef PROP_C07
 	if (!jcrv || jcrv->type != JSON_STRING || !(ref_streq(VJ(jcrv)->s, "Ed25519") || ref_streq(VJ(jcrv)->s, "Ed448")) ||
@@ -264,6 +294,9 @@ int main(void)
 		else
 			PROP(push_is(0, OSSL_PKEY_PARAM_PUB_KEY, 2, dx.b, dx.n), "C08: public key octets = decoding of x");
 	}
+	if (jcrv && jcrv->type == JSON_STRING && (ref_streq(VJ(jcrv)->s, "Ed25519") || ref_streq(VJ(jcrv)->s, "Ed448")) &&
+	    (present("d") ? dd.ok : dx.ok) && !vo_oracle_failed && !vf_faulted)
+		PROP(ret == 0, "C08/C20: an OKP JWK with a known curve and a well-formed key member imports without error whenever OpenSSL accepts the material");
 	REACH(ret == 0 && ref_streq(VJ(jcrv)->s, "Ed448") && !present("d"), "public Ed448 key");
 #endif
 	return 0;
